@@ -47,7 +47,9 @@ def prepare(tier):
 
 
 def cases(tier):
-    return [{"kind": k} for k in ("hooke1d", "plane_stress", "plane_strain", "hooke3d", "plane_strain_vs_3d",
+    arr = [{"kind": "array_roundtrip", "law": law, "shape": list(shape)}
+           for law in ("plane_stress", "plane_strain", "hooke3d") for shape in ((2,), (3, 2), (2, 3))]
+    return arr + [{"kind": k} for k in ("hooke1d", "plane_stress", "plane_strain", "hooke3d", "plane_strain_vs_3d",
                                   "plane_stress_vs_3d", "moduli", "ro_odd", "ro_masing", "ro_hysteresis",
                                   "ro_modulus")]
 
@@ -108,6 +110,33 @@ def run(ctx, case):
     _apply_canary(ctx)
     kind = case["kind"]
     ctx.signature((kind,))
+    if kind == "array_roundtrip":
+        # the same identities for array-valued components (1-D and 2-D, incl. a leading dimension of 3)
+        E, nu = _params(ctx)
+        shape = tuple(case["shape"])
+        ncomp = {"plane_stress": 3, "plane_strain": 3, "hooke3d": 6}[case["law"]]
+        size = int(np.prod(shape))
+        dt = object if ctx.sym else np.float64
+        comps = [np.array([ctx.real("x%d_%d" % (c, i)) for i in range(size)], dtype=dt).reshape(shape) for c in range(ncomp)]
+        law = {"plane_stress": HL.HookesLaw2dPlaneStress, "plane_strain": HL.HookesLaw2dPlaneStrain, "hooke3d": HL.HookesLaw3d}[case["law"]](E, nu)
+        e = list(law.strain(*comps))
+        if case["law"] == "plane_stress":
+            e_in = [e[0], e[1], e[3]]
+        else:
+            e_in = e
+        s_ = list(law.stress(*e_in))
+        if case["law"] == "plane_strain":
+            s_ = [s_[0], s_[1], s_[3]]
+        ok = all(np.shape(a) == shape for a in s_)
+        ctx.claim(ok, case["law"].replace("hooke3d", "hooke3d") + ".roundtrip", ("shape", [np.shape(a) for a in s_]))
+        if ok:
+            ctx.claim(ctx.close([list(np.asarray(a, dtype=dt).reshape(-1)) for a in s_], [list(c.reshape(-1)) for c in comps]),
+                      case["law"] + ".roundtrip", "stress(strain) on arrays")
+        # element-wise agreement with scalar calls
+        first = [c.reshape(-1)[0] for c in comps]
+        e0 = [_s(v) for v in law.strain(*first)]
+        ctx.claim(ctx.close([np.asarray(a, dtype=dt).reshape(-1)[0] for a in e], e0), case["law"] + ".roundtrip", "array == scalar")
+        return None
     if kind == "hooke1d":
         E = ctx.real("E")
         ctx.assume(E > 0)
